@@ -102,6 +102,63 @@ def interface_cases():
                     msgs.append(f"{bad}: rejected implementation registered member a under its alias (a -> {r})")
             except Exception:  # noqa
                 pass
+    # a member that already is a dataset WITH ITS OWN dispatch is re-pointed to the interface's dispatch: under one options dictionary all members agree
+    @interface("ENV")
+    class Conn:
+        @dataset(dispatch="STORE.KIND")
+        def fmt() -> str:
+            return "fmt-default"
+
+        @dataset
+        def uri() -> str:
+            return "uri-default"
+
+    @Conn.implementation("PROD")
+    class Prod:
+        def fmt():
+            return "fmt-prod"
+
+        def uri():
+            return "uri-prod"
+    for o, want in (({"ENV": "PROD"}, ("fmt-prod", "uri-prod")), ({"ENV": "DEV", "STORE": {"KIND": "PROD"}}, ("fmt-default", "uri-default"))):
+        got = (Conn.fmt(o), Conn.uri(o))
+        if got != want:
+            msgs.append(f"interface members disagree under {o}: {got}, expected {want} (a member dataset kept its own dispatch)")
+    # two interfaces declaring a member of the same name, implemented together: BOTH get the implementation; an abstract one of the second is required
+    @interface("IMPL")
+    class Reader:
+        @dataset
+        def name() -> str:
+            return "reader-default"
+
+    @interface("IMPL")
+    class Writer:
+        @dataset
+        def name() -> str:
+            return "writer-default"
+
+        @abstractdataset
+        def flush() -> int:
+            pass
+
+    @implements(Reader, Writer, alias="BOTH")
+    class Both:
+        def name():
+            return "both"
+
+        def flush():
+            return 1
+    got = (Reader.name({"IMPL": "BOTH"}), Writer.name({"IMPL": "BOTH"}))
+    if got != ("both", "both"):
+        msgs.append(f"one implementation of two interfaces with a same-named member: {got}, expected ('both', 'both')")
+    try:
+        @implements(Reader, Writer, alias="PARTIAL")
+        class Partial:
+            def name():
+                return "partial"
+        msgs.append("an implementation omitting a member that is abstract in its second interface was accepted")
+    except TypeError:
+        pass
     return msgs
 
 
